@@ -12,7 +12,7 @@ KEYWORDS = ["proto", "import", "option", "type", "const", "enum", "message", "ty
 TYPES = ["bool", "byte", "uint1", "uint3", "uint8", "uint16", "uint32", "uint63", "uint64", "uint65", "uint0", "uint999999", "int1", "int7", "int8", "int24", "int64", "int65", "int0"]
 NUMBERS = ["0", "1", "2", "7", "8", "63", "64", "65", "255", "256", "257", "65535", "65536", "65537", "4294967296", "18446744073709551616", "0x0", "0x1", "0xff", "0xFFFF", "0x10000", "0xFFFFFFFFFFFFFFFFFFFFFFFF", "00", "007", "99999999999999999999999999999999"]
 BOOLS = ["true", "false", "yes", "no"]
-STRINGS = ['""', '"a"', '"a b"', '"\\n"', '"\\t\\r\\\\"', '"\\""', '"\\\'"', '"\\q"', '"\\"', '"unterminated', '"x.bitproto"', '"é→"', '"//notcomment"', '"' + "a" * 300 + '"']
+STRINGS = ['"' + "\\\\" * 40, '"' + '\\"' * 40, '"' + "a\\" * 30, '"' + "\\" * 41 + '"', '"' + " " * 2000 + '"', '"' + "\\n" * 500 + '"', "//" + "/" * 3000, '""', '"a"', '"a b"', '"\\n"', '"\\t\\r\\\\"', '"\\""', '"\\\'"', '"\\q"', '"\\"', '"unterminated', '"x.bitproto"', '"é→"', '"//notcomment"', '"' + "a" * 300 + '"']
 PUNCT = [":", ";", "{", "}", "[", "]", "(", ")", "/", "=", "\\", "'", ".", "+", "-", "*", ",", "@", "#", "$", "%", "&", "!", "?", "<", ">", "|", "~", "`", "^", '"']
 SPACE = [" ", "\t", "\n", "\r", "\r\n", "\n\n", "    ", "\f", "\v", "\x00", "\ufeff", "\u00a0", "\u2028"]
 IDENTS = ["A", "a", "_", "__", "Color", "x", "Packet", "Type", "packet_t", "a.b", "a.b.c", "base.Color", "self", "None", "int", "uint", "uintx", "true1", "é", "名前", "Proto", "c.name_prefix", "max_bytes"]
